@@ -248,7 +248,7 @@ def replay(case):
 
 def shard(ctx: Ctx):
     quick = ctx.tier == 'quick'
-    n = 60 if quick else 2500
+    n = 60 if quick else 600
     other = OtherProcess(hashseed=12345 + ctx.shard)
     try:
         @st.composite
